@@ -133,20 +133,61 @@ Proof.
   unfold block_of. apply map_ext_in. intros i Hi. apply in_seq in Hi. apply H. lia.
 Qed.
 
-(* Sum of the first len bytes, and FixedLengthSum (the digest selected is the state after block total/64 - 1) *)
+(* Sum of the first len bytes *)
 Definition sha256_fixed (msg : nat -> N) (len : nat) : list N :=
   digest_bytes (hash_blocks (fixed_byte msg len) (fixed_total len / 64)).
+
+(* FixedLengthSum's digest selection (sha2.go): every block of the data is compressed; the result digest is
+   initialised after block minLen/64 and then replaced after every block i with 64 i < total *)
+Definition sel_step (f : nat -> N) (minB total : nat) (acc : list N * list N) (i : nat) : list N * list N :=
+  let st' := compress (fst acc) (block_of f i) in
+  (st', if i <? minB then snd acc else if i =? minB then st' else if 64 * i <? total then st' else snd acc).
+Definition sel_loop (f : nat -> N) (minB total nblocks : nat) : list N :=
+  snd (fold_left (sel_step f minB total) (seq 0 nblocks) (IV256, IV256)).
+
+Lemma sel_loop_inv f minB T k :
+  minB < T ->
+  let acc := fold_left (sel_step f minB (64 * T)) (seq 0 k) (IV256, IV256) in
+  fst acc = hash_blocks f k /\ (minB < k -> snd acc = hash_blocks f (Nat.min k T)).
+Proof.
+  intro Hm. induction k as [|k IH]; cbn zeta in *.
+  - split; [reflexivity|lia].
+  - rewrite seq_S, fold_left_app. cbn [fold_left Nat.add].
+    destruct IH as [I1 I2]. set (acc := fold_left (sel_step f minB (64 * T)) (seq 0 k) (IV256, IV256)) in *.
+    unfold sel_step. cbn [fst snd]. rewrite I1. split; [reflexivity|].
+    intros Hk.
+    destruct (Nat.ltb_spec k minB) as [L|L]; [lia|].
+    destruct (Nat.eqb_spec k minB) as [E|NE].
+    + subst k. rewrite Nat.min_l by lia. reflexivity.
+    + destruct (Nat.ltb_spec (64 * k) (64 * T)) as [L2|L2].
+      * rewrite Nat.min_l by lia. reflexivity.
+      * rewrite I2 by lia. rewrite !Nat.min_r by lia. reflexivity.
+Qed.
+
+Theorem sel_loop_eq f minB T nblocks :
+  minB < T -> T <= nblocks -> sel_loop f minB (64 * T) nblocks = hash_blocks f T.
+Proof.
+  intros Hm Hn. unfold sel_loop. destruct (sel_loop_inv f minB T nblocks Hm) as [_ I].
+  rewrite I by lia. rewrite Nat.min_r by lia. reflexivity.
+Qed.
+
 Definition sha256_varlen (buf : nat -> N) (minLen maxLen len : nat) : list N :=
-  digest_bytes (hash_blocks (varlen_byte buf minLen maxLen len) (var_total len / 64)).
+  digest_bytes (sel_loop (varlen_byte buf minLen maxLen len) (minLen / 64) (var_total len) ((maxLen + 72) / 64)).
 
 Theorem varlen_sum_eq buf minLen maxLen len :
   minLen <= len <= maxLen ->
   sha256_varlen buf minLen maxLen len = sha256_fixed (fun i => if i <? maxLen then buf i else 0%N) len.
 Proof.
   intro H. unfold sha256_varlen, sha256_fixed. rewrite var_total_eq. f_equal.
-  apply hash_blocks_ext. intros i Hi. apply varlen_byte_eq; [exact H|].
-  destruct (fixed_total_spec len) as [M _].
-  pose proof (Nat.div_mod (fixed_total len) 64 ltac:(lia)). lia.
+  destruct (fixed_total_spec len) as [M [T1 T2]].
+  pose proof (Nat.div_mod (fixed_total len) 64 ltac:(lia)) as D. rewrite M, Nat.add_0_r in D.
+  set (T := fixed_total len / 64) in *.
+  rewrite D. rewrite sel_loop_eq.
+  - apply hash_blocks_ext. intros i Hi. apply varlen_byte_eq; [exact H|lia].
+  - (* minLen / 64 < T *)
+    apply Nat.div_lt_upper_bound; lia.
+  - (* T <= (maxLen + 72) / 64 *)
+    apply Nat.div_le_lower_bound; lia.
 Qed.
 
 (* executable: digest of a byte list *)
